@@ -402,8 +402,10 @@ func c13Null(a *acc) {
 	kwPats := []string{"case%", "%case", "%case%", "c_se", "when", "%and%", "order%", "%null", "is%"}
 	for _, ctx := range c13Contexts {
 		for _, col := range []string{"s", "caseNote", "orders"} {
-			for _, p := range kwPats {
+			for pi, p := range kwPats {
 				sql := strings.ReplaceAll(strings.ReplaceAll(c13SQL(ctx, p), "first_value(s)", "first_value("+col+")"), " s LIKE", " "+col+" LIKE")
+				// the LIKE keyword itself in lower and mixed case for two thirds of the patterns
+				sql = strings.Replace(sql, " LIKE ", []string{" LIKE ", " like ", " Like "}[pi%3], 1)
 				got := map[int]int{} // id -> 1 true, 0 false/absent, -1 no boolean
 				if ctx == "having" {
 					r := detExec(sql, detOpts{Eager: true}, func(e *Env) {
